@@ -50,11 +50,11 @@ def todoSteps (e : Env) (lh : Int) : List Nat → St → List St
     | none => []
 
 /-- batches (4): the state after each re-admitted pending transaction (a refused one writes no batch) -/
-def readmitSteps (e : Env) (lh : Int) : List Nat → St → List St
+def repostSteps (e : Env) (lh : Int) : List Nat → St → List St
   | [], _ => []
   | i :: rest, st =>
-    if (doTx e st lh i).2 = .ok then (doTx e st lh i).1 :: readmitSteps e lh rest (doTx e st lh i).1
-    else readmitSteps e lh rest (doTx e st lh i).1
+    if (doTx e st lh i).2 = .ok then (doTx e st lh i).1 :: repostSteps e lh rest (doTx e st lh i).1
+    else repostSteps e lh rest (doTx e st lh i).1
 
 /-- the block-boundary part of the trace: after the roll-back, after each undone block, after each applied block -/
 def walkMid (e : Env) (s : St) (lh : Int) (dest : Nat) (prune : Bool) : List St :=
@@ -64,16 +64,16 @@ def walkMid (e : Env) (s : St) (lh : Int) (dest : Nat) (prune : Bool) : List St 
   s0 :: (undoSteps e prune ut.1 s0 ++ (if r1.2 then todoSteps e lh ut.2 r1.1 else []))
 
 /-- the re-admission part of the trace (only reached when both loops completed) -/
-def walkReadmit (e : Env) (s : St) (lh : Int) (dest : Nat) (prune : Bool) : List St :=
+def walkRepost (e : Env) (s : St) (lh : Int) (dest : Nat) (prune : Bool) : List St :=
   let s0 := rolledBack e s
   let ut := undoTodo e s.pointer dest
   let r1 := walk.undoAll e prune ut.1 s0
   let r2 := walk.todoAll e lh ut.2 r1.1
-  if r1.2 && r2.2 then readmitSteps e lh s.pool r2.1 else []
+  if r1.2 && r2.2 then repostSteps e lh s.pool r2.1 else []
 
 /-- **the state after each atomic batch of `walk`**, in the order the batches are written -/
 def walkTrace (e : Env) (s : St) (lh : Int) (dest : Nat) (prune : Bool) : List St :=
-  walkMid e s lh dest prune ++ walkReadmit e s lh dest prune
+  walkMid e s lh dest prune ++ walkRepost e s lh dest prune
 
 -- ---------------------------------------------------------------- the last element is what `walk` returns
 
@@ -129,13 +129,13 @@ theorem doTx_refused (e : Env) (s : St) (lh : Int) (i : Nat) (h : ¬ (doTx e s l
     dsimp only at h ⊢
     cases hadm : admitTx s lh (e.tx i) <;> simp_all
 
-theorem readmitSteps_last (e : Env) (lh : Int) (l : List Nat) :
-    ∀ st, lastD (readmitSteps e lh l st) st = l.foldl (fun st i => (doTx e st lh i).1) st := by
+theorem repostSteps_last (e : Env) (lh : Int) (l : List Nat) :
+    ∀ st, lastD (repostSteps e lh l st) st = l.foldl (fun st i => (doTx e st lh i).1) st := by
   induction l with
   | nil => intro st; rfl
   | cons i rest ih =>
     intro st
-    unfold readmitSteps
+    unfold repostSteps
     simp only [List.foldl_cons]
     split
     · rw [lastD_cons, ih]
@@ -159,7 +159,7 @@ step: in the latter case the trace ends with the last completed batch, which is 
 theorem walkTrace_getLast (e : Env) (s : St) (lh : Int) (dest : Nat) (prune : Bool) :
     (walkTrace e s lh dest prune).getLast? = some (walk e s lh dest prune).1 := by
   rw [walk_eq]
-  unfold walkTrace walkMid walkReadmit
+  unfold walkTrace walkMid walkRepost
   simp only
   rw [List.cons_append, getLast?_cons_lastD, lastD_append, lastD_append, undoSteps_last]
   cases h1 : (walk.undoAll e prune (undoTodo e s.pointer dest).1 (rolledBack e s)).2 with
@@ -172,7 +172,7 @@ theorem walkTrace_getLast (e : Env) (s : St) (lh : Int) (dest : Nat) (prune : Bo
     | false => simp [lastD_nil]
     | true =>
       simp only [↓reduceIte, Bool.not_true, Bool.false_eq_true]
-      rw [readmitSteps_last]
+      rw [repostSteps_last]
 
 /-- the trace is never empty: the roll-back batch is always there -/
 theorem walkTrace_ne_nil (e : Env) (s : St) (lh : Int) (dest : Nat) (prune : Bool) :
@@ -242,8 +242,10 @@ def crashStates (e : Env) (n : Node) : List Op → List Node
   | [] => [n]
   | op :: rest => n :: (opTrace e n op ++ crashStates e (runOp e n op) rest)
 
-/-- restart: the state machine is synchronised to the ledger tip by a consensus (non-pruning) walk -/
+/-- restart (the first step of the miner loop, `miner.go`: "状态机walk，确保状态机和账本一致"): if the state's
+pointer is not the ledger tip, the state machine is synchronised to the ledger tip by a consensus (non-pruning) walk -/
 def recover (e : Env) (n : Node) : Node × Bool :=
-  ({ n with s := (walk e n.s (lh n) n.l.tip false).1 }, (walk e n.s (lh n) n.l.tip false).2)
+  if n.s.pointer = n.l.tip then (n, true)
+  else ({ n with s := (walk e n.s (lh n) n.l.tip false).1 }, (walk e n.s (lh n) n.l.tip false).2)
 
 end XV.Crash
